@@ -91,6 +91,11 @@ CLAIMS['C07'] = dict(level='other', technique='dominance and true-edge guard (mu
     note='Three genuine defects found by these rules were repaired (attribute version in the setters, type of copied and of moved elements); one is recorded (over-long generated item name).',
     ref='§4 C07')
 
+CLAIMS['C01'] = dict(level='other', technique='sibling table agreement: the writer and reader escaping tables are extracted from the syntax trees (syn) of escape_text / unescape_string and compared pair by pair; MIR def-use provenance for every stored string (through the unescaper or a reported fallback), for the untrimmed origin of whitespace-preserving text, for value writes (only through the escaping writer) and for field coverage reader vs writer',
+    text='Decides structural necessary conditions only: the writer escapes < & " and its fast path tests for them; every writer pair (c, &name;) has a reader arm that maps it back and skips its length, named entities before numeric forms; every CharacterData::String built by the value parser went through unescape_string or a reported UTF-8 fallback; the whitespace-preserving kind converts the untrimmed input; element text and attribute values are written only through CharacterData::serialize_internal/escape_text inside double quotes; every ElementRaw field, the standalone flag and every CharacterDataSpec column stored/used by the reader is emitted/read. Does NOT decide whitespace trimming rules, layout, number formatting, comments placement or byte identity of the second serialisation.',
+    note='One genuine defect found by C01-SIB-reader was repaired (entities in pattern-validated text).',
+    ref='§4 C01')
+
 NA = {
     'C16': 'serialisability quantifies over interleavings and compares with sequential runs; the only static route (two-phase/reduction analysis) rejects essentially every public operation of the present design, so it cannot separate code that holds the property from code that does not',
     'C20': 'statement about numeric results (exactness, correct rounding, overflow per width) computed by std parsers for all texts; no static argument in reach bounds these run-time quantities',
